@@ -12,8 +12,8 @@ var dequeIterRec = recSpec{ctor: "mkIter", goType: "dequeIterator", fields: []re
 	{goName: "done", coqName: "it_done", kind: "bool"}, {goName: "gen", coqName: "it_gen", kind: "int"}}}
 
 var dequePanics = map[string]string{
-	"errDequeEmpty":    "PEmpty",
-	"errDequeModified": "PModified",
+	"errDequeEmpty":                                 "PEmpty",
+	"errDequeModified":                              "PModified",
 	"\"deque index out of range\"":                  "PIndex",
 	"\"Shrink() with a negative number of extras\"": "PNeg",
 }
@@ -46,6 +46,7 @@ var impDeque = impPkg{
 			preBinders: "(d : deque T)", retTy: "T * bool", panics: dequePanics,
 			aliases: map[string][2]string{"iter.d": {"d", "deque T"}}},
 	},
+	aliasRecv: map[string]string{"iter.d": "Deque"},
 }
 
 // internal/heap: the record carries the slice, the generation and the state the indexChanged callback closes over
@@ -113,4 +114,47 @@ var impSlices = impPkg{
 	},
 }
 
-var impPkgs = []*impPkg{&impDeque, &impHeap, &impSlices}
+// container/xheap PriorityQueue: the queue is its inner heap together with the key->index map, which is the state
+// the heap's indexChanged callback closes over (Heap/Model.v: pq = heap kp imap)
+const xheapFile = "container/xheap/xheap.go"
+
+var pqRec = recSpec{ctor: "mkHeap", goType: "PriorityQueue", fields: []recField{
+	{goName: "inner", kind: "skip"},
+	{goName: "", coqName: "ha", kind: "slice"}, {goName: "", coqName: "hgen", kind: "int"},
+	{goName: "m", coqName: "hs", kind: "map"}}}
+
+const pqTy = "pq K P"
+const pqArgs = " (kpzero kzero pzero) (kpless pless) (kp_index keqb)"
+
+var pqAliases = map[string][2]string{"h.inner": {"h", pqTy}}
+
+var impPQ = impPkg{
+	out:       "ImpPQ.v",
+	imports:   "From Juniper Require Import Common.Base Heap.Model Translated.GoImp Generated.ImpHeap.",
+	section:   "Context {K P : Type} (keqb : K -> K -> bool) (kzero : K) (pzero : P) (pless : P -> P -> bool).",
+	recs:      map[string]recSpec{pqTy: pqRec},
+	mapEq:     "keqb",
+	aliasRecv: map[string]string{"h.inner": "Heap"},
+	pairTypes: map[string]map[string]string{"KP": {"K": "fst", "P": "snd"}},
+	extern: []impFn{
+		{recv: "Heap", name: "Len", coqName: "gi_Heap_Len", recvRec: pqTy, retTy: "Z", safe: true},
+		{recv: "Heap", name: "Push", coqName: "gi_Heap_Push" + " (kpless pless) (kp_index keqb)", recvRec: pqTy, mut: true},
+		{recv: "Heap", name: "Pop", coqName: "gi_Heap_Pop" + pqArgs, recvRec: pqTy, mut: true, retTy: "K * P"},
+		{recv: "Heap", name: "Peek", coqName: "gi_Heap_Peek", recvRec: pqTy, retTy: "K * P"},
+		{recv: "Heap", name: "RemoveAt", coqName: "gi_Heap_RemoveAt" + pqArgs, recvRec: pqTy, mut: true},
+		{recv: "Heap", name: "Item", coqName: "gi_Heap_Item", recvRec: pqTy, retTy: "K * P"},
+		{recv: "Heap", name: "UpdateAt", coqName: "gi_Heap_UpdateAt" + " (kpless pless) (kp_index keqb)", recvRec: pqTy, mut: true},
+	},
+	fns: []impFn{
+		{file: xheapFile, recv: "PriorityQueue", name: "Len", coqName: "gi_PQ_Len", recvRec: pqTy, retTy: "Z", aliases: pqAliases},
+		{file: xheapFile, recv: "PriorityQueue", name: "Update", coqName: "gi_PQ_Update", recvRec: pqTy, mut: true, binders: "(k : K) (p : P)", aliases: pqAliases},
+		{file: xheapFile, recv: "PriorityQueue", name: "Pop", coqName: "gi_PQ_Pop", recvRec: pqTy, mut: true, retTy: "K", aliases: pqAliases},
+		{file: xheapFile, recv: "PriorityQueue", name: "Peek", coqName: "gi_PQ_Peek", recvRec: pqTy, retTy: "K", aliases: pqAliases},
+		{file: xheapFile, recv: "PriorityQueue", name: "Contains", coqName: "gi_PQ_Contains", recvRec: pqTy, retTy: "bool", binders: "(k : K)", aliases: pqAliases},
+		{file: xheapFile, recv: "PriorityQueue", name: "Priority", coqName: "gi_PQ_Priority", recvRec: pqTy, retTy: "P", binders: "(k : K)", aliases: pqAliases,
+			rewrite: map[string]string{"zero": "pzero"}},
+		{file: xheapFile, recv: "PriorityQueue", name: "Remove", coqName: "gi_PQ_Remove", recvRec: pqTy, mut: true, binders: "(k : K)", aliases: pqAliases},
+	},
+}
+
+var impPkgs = []*impPkg{&impDeque, &impHeap, &impSlices, &impPQ}
